@@ -9,8 +9,8 @@
             '4*ceil(size/3) characters no library call throws',
  'inject': [{'file': 'overlay:cxx/base64_cxx.c', 'func': 'base64_encode', 'loop': 0, 'expect': 'while (remaining >= 3)',
              'assigns': 'remaining, dp, g_j, outdata.size, __CPROVER_object_whole(outdata.p)',
-             'invariants': ['remaining <= size && size - remaining == 3 * g_j',
-                            '__CPROVER_same_object(dp, indata) && __CPROVER_POINTER_OFFSET(dp) >= 0 && (size_t)__CPROVER_POINTER_OFFSET(dp) == size - remaining',
+             'invariants': ['g_j <= g_q && remaining == 3 * (g_q - g_j) + g_r',
+                            '__CPROVER_same_object(dp, indata) && __CPROVER_POINTER_OFFSET(dp) >= 0 && (size_t)__CPROVER_POINTER_OFFSET(dp) == 3 * g_j',
                             'outdata.size == 4 * g_j && outdata.size <= outdata.cap',
                             'C18_IMP(g_k < outdata.size, outdata.p[g_k] == SPEC_B64_ENC_CHAR(0, indata, size, g_k))'],
              'decreases': 'remaining'},
@@ -26,32 +26,38 @@
 #include "c18_base64_ref.h"
 #define C18_IMP(a, b) (!(a) || (b))
 size_t g_j; /* ghost: number of complete 3-byte groups encoded so far */
+size_t g_q, g_r; /* ghost: size == 3 * g_q + g_r, g_r < 3 (set by the harness, which builds size that way: no 64-bit division in the proof) */
 size_t g_k; /* ghost index: arbitrary, so a statement about character g_k is a statement about every character */
 #include "cxx/base64_cxx.c"
 
 void harness(void)
 {
-    WIT(size_t, n);
+    WIT(size_t, q);
+    WIT(size_t, r);
     WIT(size_t, cap);
     WIT(size_t, k);
     WIT(size_t, j);
     WIT_ARR(uint8_t, content, 6);
-    __CPROVER_assume(n <= VC_MAXOBJ && cap <= 2 * VC_MAXOBJ);
+    __CPROVER_assume(q <= VC_MAXOBJ / 3 && r < 3 && cap <= 2 * VC_MAXOBJ);
+    size_t n = 3 * q + r;                 /* every size 0..VC_MAXOBJ, given as quotient and remainder by 3 */
+    size_t want_len = 4 * (q + (r != 0)); /* 4*ceil(n/3) */
+    size_t want_data = 4 * q + (r ? r + 1 : 0); /* ceil(8n/6): characters that carry data, the rest is padding */
     uint8_t *x = NEW_OBJ(n); /* exact size: a read outside indata[0..size) fails */
     FILL(x, n, content);
+    C18_RESTORE_STATICS();   /* initial value of the never-written static pointer base64_charset, see cxx_extract.py */
     g_vc_string_cap = cap;   /* arbitrary storage; exactly the specified length is one of the cases */
-    g_vc_string_nothrow = cap >= SPEC_B64_ENC_LEN(n);
+    g_vc_string_nothrow = cap >= want_len;
     g_k = k;
-    g_j = 0;
+    g_j = 0; g_q = q; g_r = r;
     uint8_t x_j = j < n ? x[j] : 0;
 
-    struct vc_string r = base64_encode(x, n);
+    struct vc_string res = base64_encode(x, n);
 
-    __CPROVER_assert(r.size == SPEC_B64_ENC_LEN(n), "length is 4*ceil(n/3)");
-    if (k < r.size) {
-        __CPROVER_assert(r.p[k] == SPEC_B64_ENC_CHAR(0, x, n, k), "character k is the RFC 4648 character of its 6-bit group, or the pad");
-        __CPROVER_assert(SPEC_B64_IS(0, r.p[k]) || r.p[k] == SPEC_B64_PAD, "only RFC 4648 Table 1 letters and =");
-        __CPROVER_assert((r.p[k] == SPEC_B64_PAD) == (k >= SPEC_B64_NCHARS(n)) && SPEC_B64_IS_DATA_POS(n, k) == (k < SPEC_B64_NCHARS(n)), "pads exactly behind the data characters");
+    __CPROVER_assert(res.size == want_len, "length is 4*ceil(n/3)");
+    if (k < res.size) {
+        __CPROVER_assert(res.p[k] == SPEC_B64_ENC_CHAR(0, x, n, k), "character k is the RFC 4648 character of its 6-bit group, or the pad");
+        __CPROVER_assert(SPEC_B64_IS(0, res.p[k]) || res.p[k] == SPEC_B64_PAD, "only RFC 4648 Table 1 letters and =");
+        __CPROVER_assert((res.p[k] == SPEC_B64_PAD) == (k >= want_data), "pads exactly behind the data characters");
     }
     __CPROVER_assert(!(j < n) || x[j] == x_j, "input not modified");
     CANARY("base64_encode harness end reachable");
